@@ -6,8 +6,11 @@ where their code object comes from:
 
 * ``template``  — ``ag_code.co_filename`` is not a file on disk (compiled
   template code: root render functions, blocks, loop-filter generators);
-* ``engine``    — a file under the repository's ``src`` directory (async filter
-  implementations, ``Undefined.__aiter__`` ...);
+* ``filter``    — a file under the repository's ``src`` directory that defines
+  registered filters / tests (given by the caller as ``value_files``): async
+  generators RETURNED by filters such as map / select, values like the data's;
+* ``engine``    — any other file under the repository's ``src`` directory
+  (iteration helpers, ``Undefined.__aiter__``, generate_async ...);
 * ``data``      — any other file (generators provided by the harness' data).
 """
 from __future__ import annotations
@@ -53,8 +56,9 @@ class Tracker:
     ``run_forever`` replaces whatever hooks were installed before it started.
     """
 
-    def __init__(self, repo_src):
+    def __init__(self, repo_src, value_files=()):
         self.repo_src = os.path.realpath(repo_src) + os.sep
+        self.value_files = frozenset(value_files)
         self.recs: list[Rec] = []
         self.final_calls: list = []   # (origin, filename, name, was_open)
         self._chain = None
@@ -66,8 +70,9 @@ class Tracker:
         fn = code.co_filename
         if not _isfile(fn):
             return "template"
-        if os.path.realpath(fn).startswith(self.repo_src):
-            return "engine"
+        rp = os.path.realpath(fn)
+        if rp.startswith(self.repo_src):
+            return "filter" if rp in self.value_files else "engine"
         return "data"
 
     # -- hooks ---------------------------------------------------------------
@@ -262,6 +267,42 @@ def step_agen(ag, stop_after=None, cancel_at=None, limit=100000):
     except BaseException as e:  # noqa: BLE001
         aclose_exc = e
     return (kind, val, n, chunks, aclose_exc)
+
+
+def holds(ag, wanted, depth=2):
+    """Which of the objects ``wanted`` ({id: label}) does the suspended async
+    generator ``ag`` hold in its frame (directly, or through the attributes /
+    items of what it holds, ``depth`` levels)?  -> sorted labels"""
+    fr = ag.ag_frame
+    if fr is None:
+        return []
+    found = set()
+    seen = set()
+
+    def visit(o, d):
+        if id(o) in seen:
+            return
+        seen.add(id(o))
+        lab = wanted.get(id(o))
+        if lab is not None:
+            found.add(lab)
+        if d <= 0 or isinstance(o, (str, bytes, int, float, type(None), type)):
+            return
+        kids = []
+        dct = getattr(o, "__dict__", None)
+        if isinstance(dct, dict):
+            kids.extend(dct.values())
+        for sl in getattr(type(o), "__slots__", ()) or ():
+            if isinstance(sl, str) and hasattr(o, sl):
+                kids.append(getattr(o, sl))
+        if isinstance(o, (list, tuple)) and len(o) <= 8:
+            kids.extend(o)
+        for k in kids:
+            visit(k, d - 1)
+
+    for v in list(fr.f_locals.values()):
+        visit(v, depth)
+    return sorted(found)
 
 
 def collect():
